@@ -126,10 +126,10 @@ class ShardResult:
 
 
 def run_shards(binary, test, ident, nshards, checks, seed, unit_index, rundir, timeout_s, extra_env=None,
-               extra_args=None, steps=None, gomaxprocs=None):
-    """Run nshards processes of one rapid test; return list of ShardResult."""
+               extra_args=None, steps=None, gomaxprocs=None, only=None):
+    """Run nshards processes of one rapid test; return list of ShardResult (only: run just these shard numbers)."""
     procs = []
-    for sh in range(nshards):
+    for sh in (only if only is not None else range(nshards)):
         env = dict(os.environ)
         env["VERIF_OUT"] = rundir
         env["VERIF_SHARD"] = "%s-%d" % (ident, sh)
